@@ -21,7 +21,7 @@ ASSUMPTIONS = ["thresholds are the ones the property states: attenuation <= -40 
                ">= 90 % of its high-passed, re-aligned amplitude on its peak channel", "a 'few neighbouring channels' = the 7 nearest sites with a Gaussian footprint of sigma 0.4-0.7 site pitches (retention falls "
                "smoothly with footprint width: measured 0.94-0.97 in that range, 0.89-0.91 at sigma 1.0-1.3, which is no longer 'a few channels')", "grouped filters are compared with per-group calls using default padding on both sides"]
 REQUIRED = {"default_header_checked": 2, "labels_true_checked": 2, "labels_true_with_bad_channels": 2, "stripe_attenuations": 8, "spike_retentions": 8, "outside_checked": 6, "car_zero_reference": 10, "group_equals_separate": 20,
-            "agc_products": 20, "referencing_through_destripe": 16, "settings_through_destripe": 4, "lfp_forwarding_checked": 3, "file_headers_checked": 4, "few_channel_arrays": 4}
+            "agc_products": 20, "referencing_through_destripe": 16, "settings_through_destripe": 4, "lfp_forwarding_checked": 3, "file_headers_checked": 4, "few_channel_arrays": 4, "fk_grouped_with_padding": 4}
 CASE_TIMEOUT = 120.0
 KINDS = ["3B2", "NP2.1", "NP2.4", "NPultra"]
 
@@ -385,6 +385,7 @@ def run_case(case):
                 y = V.kfilt(x.copy(), collection=g, lagc=lagc, butter_kwargs=bk)
                 sep = np.zeros_like(x)
                 for v in groups:
+                    # (the grouped call documents that each group is filtered without lateral padding)
                     sep[g == v] = V.kfilt(x[g == v].copy(), lagc=lagc, butter_kwargs=bk)
                 e = np.max(np.abs(y - sep)) / np.max(np.abs(sep))
                 key = "kfilt:grouped-ignores-lagc" if lagc != 300 else "kfilt:grouped-differs"
@@ -398,18 +399,26 @@ def run_case(case):
             btype = str(rng.choice(["highpass", "lowpass"]))
             kfl = None if rng.random() < 0.5 else {"bounds": [0.0, float(rng.uniform(0.005, 0.02))], "btype": "highpass"}
             lg = [0.5, None, 0.01][int(rng.integers(0, 3))]
+            # lateral padding / taper asked by the caller: more traces than some groups hold, as many, fewer, none; taper left to its default or given
+            pad = int(rng.choice([0, 0, 10, 30, 60]))
+            tap = [None, None, 0, 5][int(rng.integers(0, 4))]
+            pkw = {} if pad == 0 and tap is None else {"ntr_pad": pad, "ntr_tap": tap}
+            if pkw:
+                res.count("fk_grouped_with_padding")
             try:
-                y = V.fk(x.copy(), si=si, dx=20e-6, vbounds=vb, btype=btype, lagc=lg, collection=g, kfilt=kfl)
+                y = V.fk(x.copy(), si=si, dx=20e-6, vbounds=vb, btype=btype, lagc=lg, collection=g, kfilt=kfl, **pkw)
                 sep = np.zeros_like(x)
                 for v in groups:
-                    sep[g == v] = V.fk(x[g == v].copy(), si=si, dx=20e-6, vbounds=vb, btype=btype, lagc=lg, kfilt=kfl)
+                    sep[g == v] = V.fk(x[g == v].copy(), si=si, dx=20e-6, vbounds=vb, btype=btype, lagc=lg, kfilt=kfl, **pkw)
                 e = np.max(np.abs(y - sep)) / max(np.max(np.abs(sep)), 1e-300)
                 key = "fk:grouped-differs"
                 if btype != "highpass":
                     key = "fk:grouped-ignores-btype"
                 elif kfl is not None:
                     key = "fk:grouped-ignores-kfilt"
-                res.check(e <= 1e-9, key, f"{label}: grouped fk(btype={btype}, kfilt={kfl}, lagc={lg}) differs from per-group calls by {e:.3g}", counter="group_equals_separate")
+                if pkw:
+                    key = "fk:grouped-padding"
+                res.check(e <= 1e-9, key, f"{label}: grouped fk(btype={btype}, kfilt={kfl}, lagc={lg}, {pkw}) differs from per-group calls by {e:.3g}", counter="group_equals_separate")
             except Exception as e:
                 res.exception("fk:exception", e, f"{label} btype={btype}")
             sigs.add(("groups", nc, ng))
